@@ -29,6 +29,23 @@ def gen(tier, seed, salt, n_quick, n_thorough, fixed=True):
                     t = ["%s %dth" % (wd, dd) if dd != 31 else "%s 31st" % wd, "%s der %d." % (wd, dd), "%s %d." % (wd, dd)][k % 3]
                     cases.append({"g": "G1/weekday+day-of-month", "t": t, "ts": "%04d-%02d-15T09:30:00" % (y, mth),
                                   "o": {"latent_time": True, "max_stack_depth": 10, "relative_match_len": 1.0, "scorer": "shipped", "debug": False}})
+    if fixed:
+        # ... and the reference day itself being that weekday and day of month, at reference times with and without a
+        # sub-second part (the scan starts at the reference time)
+        from datetime import date
+        wds = ("monday", "dienstag", "wednesday", "donnerstag", "friday", "samstag", "sunday")
+        k = 0
+        for y in range(2020, 2032):
+            for mth in range(1, 13):
+                k += 1
+                if tier != "thorough" and k % 2:
+                    continue
+                d = date(y, mth, (k * 11) % 28 + 1)
+                wd = wds[d.weekday()]
+                t = ["%s %dth" % (wd, d.day) if d.day not in (1, 2, 3, 21, 22, 23) else "%s the %d." % (wd, d.day), "%s der %d." % (wd, d.day), "%s %d." % (wd, d.day)][k % 3]
+                for tod in ("00:00:00", "09:30:15.250000", "23:59:59.999999"):
+                    cases.append({"g": "G1/weekday+day-of-month/today", "t": t, "ts": "%sT%s" % (d.isoformat(), tod),
+                                  "o": {"latent_time": True, "max_stack_depth": 10, "relative_match_len": 1.0, "scorer": "shipped", "debug": False}})
     # coverage-guided corpus (vf/tools/covsoup.py): texts that each showed a rule-application signature no other kept text
     # shows; an input list only -- the monitors of the property decide on the current tree
     cov = cov_entries()
